@@ -22,7 +22,9 @@ def long_menu(w):
 def main(tier, replay_payload=None):
     w_args = universe(tier)
     menu_fn = full_menu
-    parts = dict(main=(w_args, menu_fn), long=(LONG_ARGS, long_menu), norm=(NORM_ARGS, long_menu))
+    # an identifier and the same identifier behind a byte-order mark (not whitespace: a different identifier)
+    bom_args = dict(NORM_ARGS, pids=["\ufeffb", "b"])
+    parts = dict(main=(w_args, menu_fn), long=(LONG_ARGS, long_menu), norm=(NORM_ARGS, long_menu), bom=(bom_args, long_menu))
     if replay_payload is not None:
         return make_multi_replayer(parts)(replay_payload)
     run = report.Run("C04", tier, technique="pathsym inductive step; C04 as one z3 formula over all cids and pids")
@@ -31,6 +33,7 @@ def main(tier, replay_payload=None):
     collect(run, res, MINE, w_args, menu_fn)
     collect(run, step.explore_steps(LONG_ARGS, long_menu), MINE, LONG_ARGS, long_menu, part="long")
     collect(run, step.explore_steps(NORM_ARGS, long_menu), MINE, NORM_ARGS, long_menu, part="norm")
+    collect(run, step.explore_steps(bom_args, long_menu), MINE, bom_args, long_menu, part="bom")
     run.functions = loader.function_lines(loader.load(), API_FUNCS)
     run.bounds = dict(pids=w_args["pids"], contents=[len(c) for c in w_args["contents"]], formats=w_args["formats"],
                       long_reference_list="two 5000-character pids and a short one on one object (list > 8 KiB)",
